@@ -1,7 +1,14 @@
 (* C05 -- quorum reads return only what enough distinct peers agree on.
-   Only pinned statements, `exact <lemma>` and small wrappers live here. *)
-From Coq Require Import List NArith Bool Permutation.
-From V Require Import gen.Consts model.GetRecord proofs.GetRecord.
+   Only pinned statements, `exact <lemma>` and small wrappers live here.
+
+   Reading guide: a history `evs` is any list of events -- GetNetworkRecord commands (Cmd), replies
+   (Found, from a peer or the local store), terminating events (Finished / ErrNotFound /
+   ErrQuorumFailed / ErrTimeout), receivers being dropped (Drop) -- in any order, with any
+   duplication, for any number of callers and keys.  `final evs` is the driver state after it,
+   `outs evs` everything delivered on callers' channels, `step_outs (final pre) e` what event `e`
+   delivers after history `pre`. *)
+From Coq Require Import List NArith Bool Permutation Sorted.
+From V Require Import gen.Consts model.GetRecord proofs.GetRecord proofs.GetRecordQuorum proofs.GetRecordSplit.
 Import ListNotations.
 Open Scope N_scope.
 
@@ -11,9 +18,9 @@ Theorem constants_consistent :
   quorum_value QAll = 5 /\ quorum_value QMajority = 3 /\ quorum_value QOne = 1.
 Proof. exact constants_ok. Qed.
 
-(* (a) for every history of commands, replies, terminating events and dropped receivers, and every
-   caller: at most one outcome; none while its query is in flight; exactly one once it has been
-   issued and is no longer waiting (a caller that dropped its own receiver cannot be answered);
+(* (a) every caller: at most one outcome; none while its query is in flight; exactly one once it
+   has been issued and is no longer waiting (a caller that dropped its own receiver cannot be
+   answered; a caller whose sender was dropped unsent observes EClosed, a specific error);
    nothing for callers that were never issued *)
 Theorem one_outcome_per_caller : forall evs c,
   (count_outcomes (outs evs) c <= 1)%nat /\
@@ -27,3 +34,177 @@ Proof. exact one_outcome_lemma. Qed.
 Theorem terminating_event_ends_wait : forall evs e q, terminating e q ->
   find_query q (pending (final (evs ++ [e]))) = None.
 Proof. exact terminating_removes. Qed.
+
+(* at most one query per key is in flight, so the iteration order of pending_get_record in the
+   de-duplication loop of cmd.rs cannot matter *)
+Theorem dedup_order_irrelevant : forall evs x y,
+  In x (pending (final evs)) -> In y (pending (final evs)) -> qkey x = qkey y -> x = y.
+Proof. exact one_query_per_key. Qed.
+
+(* Ok(record) is always the record of the reply being processed (never a stored or invented one) *)
+Theorem ok_is_a_reply : forall pre e c r,
+  In (c, OOk r) (step_outs (final pre) e) -> exists q po, e = Found q po r.
+Proof. exact ok_is_a_reply_lemma. Qed.
+
+(* (b) Ok(record) for a caller with its own configuration cf: at least quorum-many *distinct* peers
+   (NoDup: a peer answering twice counts once) returned byte-identical content for the query, and
+   the record passes the caller's target check -- for every caller outside the known class F10 *)
+Theorem ok_needs_quorum : forall pre e c r key cf,
+  In (c, OOk r) (step_outs (final pre) e) -> cmd_at pre c key cf -> ~ KnownJoined pre c ->
+  exists q ps, NoDup ps /\ quorum_value (cq cf) <= nlen ps /\
+    (forall p, In p ps -> replied (pre ++ [e]) q p (rcont r)) /\
+    does_target_match cf r = true.
+Proof. exact ok_needs_quorum_lemma. Qed.
+
+(* ... and for every caller, including those in F10, with respect to the configuration of the query
+   it is attached to (the first caller's) *)
+Theorem ok_under_query_cfg : forall pre e c r,
+  In (c, OOk r) (step_outs (final pre) e) ->
+  exists q po x ps,
+    e = Found q po r /\ find_query q (pending (final pre)) = Some x /\ In c (qcallers x) /\
+    NoDup ps /\ quorum_value (cq (qcfg x)) <= nlen ps /\
+    (forall p, In p ps -> replied (pre ++ [e]) q p (rcont r)) /\
+    does_target_match (qcfg x) r = true.
+Proof. exact ok_under_query_cfg_lemma. Qed.
+
+(* (c) invariant: every version of every pending query has fewer distinct responders than the quorum *)
+Theorem below_quorum : forall evs x r ps,
+  In x (pending (final evs)) -> In (r, ps) (qvers x) ->
+  NoDup ps /\ nlen ps < quorum_value (cq (qcfg x)) /\ ps <> [].
+Proof. exact below_quorum_lemma. Qed.
+
+(* hence the branch of handle_get_record_finished that returns Ok without the target check, and the
+   quorum branch of the timeout handler, are unreachable *)
+Theorem finished_never_ok_unchecked : forall evs q c r,
+  ~ In (c, OOk r) (step_outs (final evs) (Finished q)).
+Proof. exact finished_never_ok_lemma. Qed.
+
+Theorem timeout_never_ok : forall evs q c o,
+  In (c, o) (step_outs (final evs) (ErrTimeout q)) -> o = ETimeout \/ o = EClosed.
+Proof. exact timeout_outs. Qed.
+
+(* (d) SplitRecord carries at least two versions of pairwise different content; each version lists
+   exactly peers that returned that content for this query, each once *)
+Theorem split_returns_all_versions : forall pre e c vs,
+  In (c, ESplit vs) (step_outs (final pre) e) ->
+  exists q, (e = Finished q \/ exists po r, e = Found q po r) /\
+    (2 <= length vs)%nat /\ NoDup (map vcont vs) /\
+    forall r0 ps, In (r0, ps) vs ->
+      NoDup ps /\ ps <> [] /\ forall p, In p ps -> replied (pre ++ [e]) q p (rcont r0).
+Proof. exact split_lemma. Qed.
+
+(* ... and it is the FULL set: every reply the query received (replies refer to issued queries:
+   wf_trace) appears in it with its sender *)
+Theorem split_is_complete : forall pre e c vs, wf_trace (pre ++ [e]) ->
+  In (c, ESplit vs) (step_outs (final pre) e) ->
+  exists q, (e = Finished q \/ exists po r, e = Found q po r) /\
+    forall po r, In (Found q po r) (pre ++ [e]) ->
+      exists r0 ps, In (r0, ps) vs /\ rcont r0 = rcont r /\ In (peer_of po) ps.
+Proof. exact split_complete_lemma. Qed.
+
+(* Ok(merged record) (quorum reached while versions differ): the sorted union of the transactions
+   of all versions present -- never one of them picked *)
+Theorem merged_is_transaction_union : forall pre e c r,
+  In (c, OMerged r) (step_outs (final pre) e) ->
+  exists q po r1 x vers' U,
+    e = Found q po r1 /\ find_query q (pending (final pre)) = Some x /\ In c (qcallers x) /\
+    vers' = fst (insert_version (qvers x) r1 (peer_of po)) /\ (2 <= length vers')%nat /\
+    r = {| rkey := rkey r1; rcont := tx_content U; rpub := None |} /\
+    StronglySorted N.lt U /\ U <> [] /\
+    forall t, In t U <-> exists v l, In v vers' /\ get_transactions (fst v) = Some l /\ In t l.
+Proof. exact merged_lemma. Qed.
+
+(* ... and outside the known class (some version present is not a transaction list) every version
+   is covered by the merge *)
+Theorem merged_covers_all : forall pre e c r, In (c, OMerged r) (step_outs (final pre) e) ->
+  exists q po r1 x U,
+    e = Found q po r1 /\ find_query q (pending (final pre)) = Some x /\ rcont r = tx_content U /\
+    (~ KnownMixedMerge (fst (insert_version (qvers x) r1 (peer_of po))) ->
+     forall v, In v (fst (insert_version (qvers x) r1 (peer_of po))) ->
+       exists l, get_transactions (fst v) = Some l /\ forall t, In t l -> In t U).
+Proof. exact merged_covers_all_lemma. Qed.
+
+(* handle_split_record_error with the map iteration order as the explicit argument: outside the
+   known class F11 the result is the same for every order *)
+Theorem merge_perm_invariant : forall vers vers' key,
+  Permutation vers vers' -> canonical vers -> ~ KnownOrderDependent vers ->
+  handle_split vers key = handle_split vers' key.
+Proof. exact merge_perm_invariant_lemma. Qed.
+
+(* ... and it is: the union of transactions (if more than one), *)
+Theorem split_tx_is_union : forall vers key, first_kind vers = Some KTx -> (2 <= length vers)%nat ->
+  exists U, StronglySorted N.lt U /\
+    (forall t, In t U <-> exists r ids, In r vers /\ ckind (rcont r) = Some KTx /\
+                                       cpay (rcont r) = PTx ids /\ In t ids) /\
+    handle_split vers key =
+      if 1 <? nlen U then Some {| rkey := key; rcont := tx_content U; rpub := None |} else None.
+Proof. exact split_tx_lemma. Qed.
+
+(* the union of the operations of the verified registers (same base), *)
+Theorem split_reg_is_union : forall vers key, first_kind vers = Some KReg -> (2 <= length vers)%nat ->
+  canonical vers -> ~ forked_registers vers ->
+  match handle_split vers key with
+  | None => forall r b ops salt, In r vers -> ckind (rcont r) = Some KReg -> cpay (rcont r) <> PReg b true ops salt
+  | Some m =>
+      exists b U salt,
+        m = {| rkey := key; rcont := {| ckind := Some KReg; cpay := PReg b true U salt |}; rpub := None |} /\
+        StronglySorted N.lt U /\
+        (exists r ops, In r vers /\ ckind (rcont r) = Some KReg /\ cpay (rcont r) = PReg b true ops salt) /\
+        (forall t, In t U <-> exists r b' ops s', In r vers /\ ckind (rcont r) = Some KReg /\
+                                cpay (rcont r) = PReg b' true ops s' /\ In t ops)
+  end.
+Proof. exact split_reg_lemma. Qed.
+
+(* a validly signed scratchpad with the highest counter *)
+Theorem split_pad_is_max : forall vers key, first_kind vers = Some KPad -> (2 <= length vers)%nat ->
+  match handle_split vers key with
+  | None => forall r c d, In r vers -> ckind (rcont r) = Some KPad -> cpay (rcont r) <> PPad true c d
+  | Some m =>
+      exists c d,
+        m = {| rkey := key; rcont := {| ckind := Some KPad; cpay := PPad true c d |}; rpub := None |} /\
+        (exists r, In r vers /\ ckind (rcont r) = Some KPad /\ cpay (rcont r) = PPad true c d) /\
+        (forall r c' d', In r vers -> ckind (rcont r) = Some KPad -> cpay (rcont r) = PPad true c' d' -> c' <= c)
+  end.
+Proof. exact split_pad_lemma. Qed.
+
+(* get_record_from_network over any number of attempts: Ok(r) is the Ok of some attempt or the merge
+   of the versions of some attempt's SplitRecord *)
+Theorem api_ok_is_reply_or_merge : forall key atts n r, api_loop key n atts = Some (AOk r) ->
+  exists o order, In (o, order) atts /\
+    (o = OOk r \/ o = OMerged r \/ (exists vs, o = ESplit vs /\ handle_split order key = Some r)).
+Proof. exact api_loop_ok. Qed.
+
+(* (e) refutations, replayed on the real code from corpus/C05 (known classes F10 / F11) *)
+Theorem joined_caller_refuted :
+  exists pre e c r key cf,
+    In (c, OOk r) (step_outs (final pre) e) /\ cmd_at pre c key cf /\
+    does_target_match cf r = false /\
+    (forall q ps, NoDup ps -> (forall p, In p ps -> replied (pre ++ [e]) q p (rcont r)) ->
+                  nlen ps < quorum_value (cq cf)).
+Proof. exact joined_caller_refuted_lemma. Qed.
+
+Theorem merge_forked_register_refuted :
+  exists vers vers' key, Permutation vers vers' /\ canonical vers /\ forked_registers vers /\
+                         handle_split vers key <> handle_split vers' key.
+Proof. exact merge_forked_register_refuted_lemma. Qed.
+
+Theorem merge_mixed_kinds_refuted :
+  exists vers vers' key, Permutation vers vers' /\ canonical vers /\ mixed_kinds vers /\
+                         handle_split vers key <> handle_split vers' key.
+Proof. exact merge_mixed_kinds_refuted_lemma. Qed.
+
+Theorem merge_scratchpad_tie_refuted :
+  exists vers vers' key, Permutation vers vers' /\ canonical vers /\ scratchpad_tie vers /\
+                         handle_split vers key <> handle_split vers' key.
+Proof. exact merge_scratchpad_tie_refuted_lemma. Qed.
+
+(* inside KnownMixedMerge: three peers return a scratchpad, one a transaction record; the
+   Quorum::N(3) reader gets Ok(the transaction record), the version holding the quorum is dropped *)
+Theorem merged_drops_quorum_version_refuted :
+  exists pre q po r1 x c r v ps,
+    find_query q (pending (final pre)) = Some x /\
+    In (c, OMerged r) (step_outs (final pre) (Found q po r1)) /\
+    In (v, ps) (fst (insert_version (qvers x) r1 (peer_of po))) /\
+    quorum_value (cq (qcfg x)) <= nlen ps /\ get_transactions v = None /\
+    r = mm_tx.
+Proof. exact merged_drops_quorum_version_refuted_lemma. Qed.
